@@ -59,6 +59,14 @@ func (m *Memory) Tag(_ context.Context, desc ocispec.Descriptor, reference strin
 	m.lock.Lock()
 	defer m.lock.Unlock()
 
+	// a reference that is being moved no longer tags its previous target
+	if old, ok := m.index[reference]; ok && old.Digest != desc.Digest {
+		oldTagSet := m.tags[old.Digest]
+		oldTagSet.Delete(reference)
+		if len(oldTagSet) == 0 {
+			delete(m.tags, old.Digest)
+		}
+	}
 	m.index[reference] = desc
 	tagSet, ok := m.tags[desc.Digest]
 	if !ok {
